@@ -198,6 +198,9 @@ def step (st : St) (ws : List String) : St × String :=
   | ["cw", _] => stepList st op
   | ["ckpt", _] | ["cd", _] | ["retain", _] | ["hcd", _] | ["hretain", _] | ["hretaind", _] =>
     if listBlocked st hint then (st, "blocked") else stepList st op
+  | ["probe"] =>
+    -- a real `DB.NeedsTable` call (CheckpointList.IncludesTable): it waits for the list mutex while a save is held
+    (st, if st.held then "blocked" else "free")
   | ["release"] =>
     if st.held then
       let st1 := if st.heldDel then destroyAll st else st
@@ -224,12 +227,21 @@ def step (st : St) (ws : List String) : St × String :=
     if !Ckpt.retainedDone st.s i && dirOf st i != st.dir then
       -- its document lives in a directory the running instance does not write to (not modelled: one flat name space)
       (st, "otherdir") else
+    let want := showScan8 (specScan (specOf st i) [])
     match Ckpt.step st.s (.open i []) with
-    | some r => (st, withSpec (showScan8 (scan r.db [])) (showScan8 (specScan (specOf st i) [])))
+    | some r =>
+      if !Ckpt.retainedDone st.s i && st.sp.over.contains i then
+        -- D67 situation only: a handle newer than the checkpoint the database was reopened from, not listed by the
+        -- running instance, same directory. Its table / WAL files may have been overwritten; which ones depends on file
+        -- numbers the model does not track (allocation at write time), so whatever the code returns instead of the
+        -- expected map is recorded as the known finding.
+        let got := joinWith " " hint
+        if got == want then (st, want) else (st, got ++ " #spec " ++ want ++ " #kf D67")
+      else (st, withSpec (showScan8 (scan r.db [])) want)
     | none =>
-      -- D50: only a handle older than a checkpoint the database was reopened from may have lost its document entry
-      if st.sp.lost.contains i then (st, "failed #spec " ++ showScan8 (specScan (specOf st i) []) ++ " #kf D50")
-      else (st, "failed")
+      -- D50 situation only: an unlisted handle after the running instance wrote the document
+      if st.sp.lost.contains i then (st, "failed #spec " ++ want ++ " #kf D50")
+      else (st, "failed #spec " ++ want)
   | ["intact"] => (st, "ok")
   | _ => (st, "bad-op")
 
